@@ -24,7 +24,7 @@ CONSTANTS Family,       \* field types offered to Init: subset of {"set","mutex"
           IndexCfgsSel, \* "all" or "plain": index option combinations offered to Init
           Depth,        \* length of an emitted behaviour
           MaxRestarts,  \* Restart actions per behaviour (the driver always adds a final one)
-          Classes,      \* action classes: "data", "attr", "aux", "schema", "restart"
+          Classes,      \* action classes: "data", "attr", "aux", "schema", "restart", "snap"
           Sample        \* TRUE: draw action parameters at random (simulation)
 
 VARIABLES icfg, fcfg, bits, vals, rattr, cattr, ex, hasG, gcols, hasJ, remote, nrestart, hist
@@ -139,6 +139,30 @@ ClearBit(r, c) ==
     /\ UNCHANGED <<icfg, fcfg, vals, rattr, cattr, ex, hasG, gcols, hasJ, remote, nrestart>>
     /\ Step([op |-> "ClearBit", r |-> r, c |-> c])
 
+(* Store(Row(f=rs), f=rd) (set fields) and ClearRow(f=r): both rewrite the fragment's storage
+   file (snapshot) instead of appending to its op log; SnapSet is a Set that reaches MaxOpN and
+   triggers a snapshot (the driver lowers MaxOpN for the call).  A fragment whose last write
+   before a clean shutdown was one of these has an empty op log when it is closed. *)
+Store(rs, rd) ==
+    /\ fcfg.type = "set" /\ ~fcfg.keys     \* (Store does not translate a row key: not generated for keyed fields)
+    /\ rs # rd /\ Late(rs, 0) /\ Late(rd, 0)
+    /\ bits' = {x \in bits : x[1] # rd} \cup {<<rd, x[2], 0>> : x \in {y \in bits : y[1] = rs /\ y[3] = 0}}
+    /\ UNCHANGED <<icfg, fcfg, vals, rattr, cattr, ex, hasG, gcols, hasJ, remote, nrestart>>
+    /\ Step([op |-> "Store", rs |-> rs, rd |-> rd])
+
+ClearRow(r) ==
+    /\ fcfg.type \in {"set", "mutex", "time"} /\ Late(r, 0)
+    /\ bits' = {x \in bits : x[1] # r}
+    /\ UNCHANGED <<icfg, fcfg, vals, rattr, cattr, ex, hasG, gcols, hasJ, remote, nrestart>>
+    /\ Step([op |-> "ClearRow", r |-> r])
+
+SnapSet(r, c) ==
+    /\ fcfg.type \in {"set", "mutex"} /\ Late(r, c)
+    /\ bits' = ApplySet(bits, r, c, 0)
+    /\ ex' = IF icfg.exist THEN ex \cup {c} ELSE ex
+    /\ UNCHANGED <<icfg, fcfg, vals, rattr, cattr, hasG, gcols, hasJ, remote, nrestart>>
+    /\ Step([op |-> "SnapSet", r |-> r, c |-> c])
+
 (* API.Import of two bits (applied in order) *)
 ImportBits(r1, c1, t1, r2, c2, t2) ==
     /\ IsBits /\ TimeOK(t1) /\ TimeOK(t2) /\ Late(r1, c1) /\ Late(r2, c2)
@@ -232,6 +256,9 @@ Data ==
     \/ \E r \in Pick(Rows), c \in Pick(Cols), t \in Pick(1..2) : Sample /\ SetBit(r, c, t)
     \/ \E t \in Pick(Times) : Sample /\ (SetBit(3, 3, t) \/ SetBit(3, 0, t) \/ SetBit(1, 3, t))
     \/ \E r \in Pick(Rows), c \in Pick(Cols) : ClearBit(r, c)
+    \/ \E rs \in Pick(Rows), rd \in Pick(Rows) : Store(rs, rd)
+    \/ \E r \in Pick(Rows) : ClearRow(r)
+    \/ \E r \in Pick(Rows), c \in Pick(Cols) : SnapSet(r, c)
     \/ \E r1 \in Pick(Rows), c1 \in Pick(Cols), t1 \in Pick(Times), r2 \in Pick(Rows), c2 \in Pick(Cols), t2 \in Pick(Times) :
           Sample /\ ImportBits(r1, c1, t1, r2, c2, t2)
     \/ \E r1 \in 1..2, c1 \in 0..2, t1 \in Times, t2 \in Times :
@@ -242,6 +269,16 @@ Data ==
           ImportVals(c1, v1, c2, v2)
     \/ \E c1 \in 0..2, v1 \in FVals, v2 \in FVals : ~Sample /\ ImportVals(c1, v1, (c1 + 1) % 3, v2)
     \/ \E c1 \in 0..2, v1 \in FVals : ~Sample /\ ImportVals(c1, v1, c1, Least(FVals))
+
+(* the history shape of a fragment closed with an empty op log: rows written, then a write that
+   snapshots as the last write before the restart *)
+SnapFinal == \/ \E rs \in 1..2, rd \in 1..2 : Store(rs, rd)
+             \/ \E r1 \in 1..2 : ClearRow(r1)
+             \/ \E r2 \in 1..2, c2 \in 0..2 : SnapSet(r2, c2)
+SnapShape ==
+    \/ (Len(hist) = 1 /\ \E c \in 0..2 : SetBit(1, c, 0))
+    \/ (Len(hist) = 2 /\ \E c \in 0..2 : SetBit(2, c, 0))
+    \/ (Len(hist) = 3 /\ SnapFinal)
 
 Attrs ==
     \/ \E r \in Pick(Rows), a \in Pick(1..2) : SetRowAttr(r, a)
@@ -259,6 +296,7 @@ SchemaOps ==
 
 Next == /\ Len(hist) < Depth
         /\ \/ ("data" \in Classes /\ Data)
+           \/ ("snap" \in Classes /\ SnapShape)
            \/ ("attr" \in Classes /\ Attrs)
            \/ ("aux" \in Classes /\ Aux)
            \/ ("schema" \in Classes /\ SchemaOps)
